@@ -11,6 +11,8 @@ def main():
     beh += deep
     sizes = lambda b: [b["L"]] * b["NC"]
     cases = make_cases(beh, "bb", sizes, run, allq=1)
+    for k, c in enumerate(cases):
+        c["cached"] = k % 2        # every other file: all queries in sequence through one caching reader
     def nt(o):
         # a block whose largest end is not the last entry's end
         its = o["items"]
